@@ -99,7 +99,7 @@ def run(ctx):
     else:
         args += ["--corpus", os.path.join(vlib.VERIF, "corpus", "C17", "cases.txt")]
         if quick:
-            args += ["--nuni", "2000", "--nmf", "1000", "--reps", "2"]
+            args += ["--nuni", "1500", "--nmf", "800", "--reps", "2"]
         else:
             args += ["--nuni", "20000", "--nmf", "10000", "--reps", "3"]
         if os.environ.get("C17_NUNI"):      # development aid (mutation runs)
@@ -239,7 +239,7 @@ def run(ctx):
 
 MANIFEST = {
     "category": "proof",
-    "text": "partial. Coq theorems about an implementation-faithful model of cue mod tidy (published view): CheckTidy accepts a requirement set iff it satisfies the declarative IsTidy (every import of every reachable package resolves uniquely, the entries are exactly the providers, nothing unused); an accepted set is a fixpoint of Tidy; Tidy's result is the provider set of an error-free load under its working requirements; the result does not depend on the order or multiplicity of files, imports, module.cue entries or registry listings; the resolve loop ends within #module paths + 1 rounds. The model REFUTES idempotence, acceptance of Tidy's own output and MVS-closure (witness theorems, each replayed on the real code: known findings F-C17-1..3). The model is tied to /repo by exact agreement of Tidy, Tidy o Tidy and CheckTidy with the extracted model on generated universes; the module file codec is explored directly.",
+    "text": "partial. Coq theorems about an implementation-faithful model of cue mod tidy (published view): CheckTidy accepts a requirement set iff it satisfies the declarative IsTidy (every import of every reachable package resolves uniquely, the entries are exactly the providers, nothing unused); an accepted set is a fixpoint of Tidy; Tidy's result is the provider set of an error-free load under its working requirements; the result does not depend on the order or multiplicity of files, imports, module.cue entries or registry listings; updateRoots leaves every root at its selected version; the resolve loop ends within #registry modules + 1 rounds. The model REFUTES idempotence, acceptance of Tidy's own output and MVS-closure (witness theorems, each replayed on the real code: known findings F-C17-1..4). The model is tied to /repo by exact agreement of Tidy, Tidy o Tidy and CheckTidy with the extracted model on generated universes; the module file codec is explored directly.",
     "note": "Trusted: Coq kernel; the hand-written model; extraction and the OCaml/Go drivers. Not modelled: replace directives and local-module.cue, build attributes, _tool/_test files, cue.mod/pkg, package-name mismatches, one module path loaded at two versions (reported MULTI, not compared). modfile.Parse/Format run through the CUE evaluator and are only explored (round trip + rejection of 16 kinds of malformed files).",
     "technique": "Coq proof (closure invariants, fixpoint characterisation, canonical-form argument for order independence, counting measure for the fuel) + refutation witnesses + extracted-model differential check + direct exploration of the module file codec",
 }
